@@ -13,8 +13,8 @@ NOTE_BASE = ('Trusted: Coq kernel (vm_compute used), extraction with ExtrOcamlBa
 CLAIMS = {
  'C01': ('Theorems: (value level) under the documented limits every value of the 35 value-carrying kinds encodes in every large enough buffer and the typed decoder returns it; (message level) any method/class/transaction id and any sequence of such values encodes iff the 16-bit length allows, with size 20 + attribute bytes, a multiple of four, and the default decoder returns exactly those values in order with the same size (composition of the TLV round trip, the buffer-level encoder theorem, the ordering filter and the per-kind theorems). Tied to the code by codecrt (messages over all kinds, every method, every tail: bytes and decoded values compared with the Gallina codec) and attrval (per-kind decode/encode records). Known finding: the quoted-string constructors can store a non-canonical value (D8).',
          'PRECIS OpaqueString modelled on printable ASCII only; the Encodable integrity / fingerprint variants decode as value-carrying variants (their correctness is C04 / C10)'),
- 'C02': ('Theorems: the 14-bit message type equals the RFC bit layout and inverts for all 16,384 pairs. The byte layouts of all 38 kinds are the readable Gallina encoders of Codec/AttrValue.v (big-endian fields, zero reserved bits, XOR with cookie and transaction id, class/number split, inner padding of PASSWORD-ALGORITHMS), against which EVERY value and message the implementation encodes is compared byte for byte (suites attrval, codecrt); the bits and padding bytes a receiver must ignore are named, from the RFC texts, by the Gallina mask msg_mask (Codec/Ignored.v); the codecrt suite decodes every encoded message and a copy perturbed only inside that mask (all bits random / one bit / all set) and the monitor C02ign requires identical results; theorems C02_ignored_value / C02_ignored_message: the decoder model returns the same values for any two inputs that agree outside the mask (all kinds, lengths and settings).',
-         'partial: a second, bit-field style reference written only from the RFCs exists for the message type only; for attribute values the reference is the Gallina codec model itself (written from the code and the RFCs), so "independent" holds in the sense of a separate implementation in another language, not of a separate reading of the RFC text; type codes are constants of the model'),
+ 'C02': ('Theorems: an independent reference written from the RFC figures as bit-field lists (Rfc/RfcLayout.v: header with the M11..M7 C1 M6..M4 C0 M3..M0 interleaving, magic cookie, length, TLV with zero padding, the 38 IANA type codes, address / XOR-address with cookie and transaction id, ERROR-CODE class/number, PASSWORD-ALGORITHM(S), every TURN / ICE / NAT-discovery layout) is proved equal to the codec model for every method, class, length, transaction id and every value within its documented limits of all 35 written kinds (C02_header, C02_attribute_tlv, C02_value_layout, C02_message_layout, C02_type_codes, C02_fingerprint_layout; message type also by exhaustive enumeration of the 16,384 pairs). The codec model is compared byte for byte with EVERY value and message the implementation encodes (suites attrval, codecrt; monitor C02). Must-ignore bits: named from the RFC texts by the Gallina mask msg_mask (Codec/Ignored.v); theorems C02_ignored_value / C02_ignored_message (the decoder model returns the same values for any two inputs that agree outside the mask); the codecrt suite decodes every encoded message and a copy perturbed only inside the mask and the monitor C02ign requires identical results.',
+         'partial: the reference is tied to the implementation through the codec model and the sampled correspondence (not by a proof about the Rust code); the three attributes whose value the message encoder computes (MESSAGE-INTEGRITY, -SHA256, FINGERPRINT) have their layout theorems on the decode side and their bytes compared in the wire / codecrt suites (C04, C10)'),
  'C03': ('Model level: every operation of the reassembler and of the client is total in the model (explicit Panic outcomes for slice / subtraction sites of the reassembler, C16_no_panic); implementation level: every call of the agent and reassembler suites runs under catch_unwind and a panic is a violation. The decoder byte-level part is covered by the codec suites once registered.',
          'partial: external crates (PRECIS, pest, base64, hashes) are total functions by assumption; the codec byte-level no-panic theorem is not yet part of this check'),
  'C05': ('Trace monitor (Gallina, from the property text) on every implementation history: at most one final event per request, finals only for outstanding requests, no retransmission/notification for a finished request; plus exact agreement of every return value, event list and hook snapshot with the Gallina client model.',
